@@ -15,7 +15,7 @@ NAMES = ['x', 'y']
 
 
 class Conc(object):
-    def __init__(self, p, variant=0, taint=False, names=None, imports=False, heavy=(), listcomp=False, store=None, witness=False, wrap=False, deco=()):
+    def __init__(self, p, variant=0, taint=False, names=None, imports=False, heavy=(), listcomp=False, store=None, witness=False, wrap=False, deco=(), place=None):
         self.p = p
         self.par, self.kind, self.uses = p['par'], p['kind'], p['uses']
         self.n = len(self.par)
@@ -26,6 +26,9 @@ class Conc(object):
         #   'ann'  a value-less annotation `xx: int` at the top of the module for names the module itself never stores (binds nothing at run time)
         #   'del'  `del xx` in function scopes that declare xx global without storing it (a mention, judged like a read)
         #   'hdr'  reads in the annotations of *args / **kwargs of every function (evaluated in the scope that contains the def)
+        # where the definitions of nested scopes sit: None (directly in the suite) or inside an except handler / a match case / a with statement / a finally
+        # clause / the else of a loop; expression scopes (lambda, comprehension) then sit in a keyword-argument value
+        self.place = place
         self.deco = set(deco)
         self.del_tags = []
         self.wrap = wrap            # the stores of every statement scope sit one level down, in the body of an `if` (same scope, another suite)
@@ -93,6 +96,28 @@ class Conc(object):
     def guarded(self, pad, stmt):
         return [pad + 'try: ' + stmt, pad + 'except NameError: emit(-1, 0)']
 
+    def _child(self, s, c, k, ind):
+        """the lines that define (and, for a function, call) the statement scope c inside scope s, at the indentation of s"""
+        pad = '    ' * ind
+        out = []
+        if k == 'f':
+            params = [nm for nm in self.names if 'param' in self.u(c, nm)]
+            fname = 'f%d' % c
+            self.helpers.append(fname)
+            plist = [self.cn[nm] for nm in params]
+            if 'hdr' in self.deco and self.names:
+                plist.append('*va: emit(%s, %s)' % (self.T(s, self.names[0], 'load'), self.cn[self.names[0]]))
+                plist.append('**kw: emit(%s, %s)' % (self.T(s, self.names[-1], 'load'), self.cn[self.names[-1]]))
+            out.append(pad + 'def %s(%s):' % (fname, ', '.join(plist)))
+            out += self.body(c, ind + 1)
+            out += self.guarded(pad, '%s(%s)' % (fname, ', '.join(self.T(c, nm, 'param') for nm in params)))
+        else:
+            cname = 'C%d' % c
+            self.helpers.append(cname)
+            out.append(pad + 'class %s:' % cname)
+            out += self.body(c, ind + 1)
+        return out
+
     def body(self, s, ind):
         pad = '    ' * ind
         out = []
@@ -139,6 +164,10 @@ class Conc(object):
                         r.append(pad + 'with emit.ctx(%s) as %s: pass' % (self.T(s, nm, 'store'), self.cn[nm]))
                     elif self.store == 'tuple':
                         r.append(pad + '%s, emit.k = %s, 0' % (self.cn[nm], self.T(s, nm, 'store')))
+                    elif self.store == 'def':
+                        r += [pad + 'def %s(*a):' % self.cn[nm], pad + '    return %s' % self.T(s, nm, 'store')]
+                    elif self.store == 'class':
+                        r += [pad + 'class %s:' % self.cn[nm], pad + '    tag = %s' % self.T(s, nm, 'store')]
                     else:
                         r.append(pad + '%s = %s' % (self.cn[nm], self.T(s, nm, 'store')))
             return r
@@ -156,6 +185,17 @@ class Conc(object):
             out.append(pad + "emit(-7, eval('1'))")
         for c in self.kids[s]:
             k = self.kind[c - 1]
+            if self.place and k in ('f', 'c'):
+                head = {'except': ['try: raise KeyError()', 'except KeyError:'], 'match': ['match 0:', '    case _:'], 'with': ['with emit.ctx(0):'],
+                        'finally': ['try: pass', 'finally:'], 'loopelse': ['for emit.k in []: pass', 'else:']}[self.place]
+                out += [pad + h for h in head]
+                inner = len(head[-1]) - len(head[-1].lstrip()) + 4
+                sub = self._child(s, c, k, ind)
+                out += [' ' * inner + l for l in sub]
+                continue
+            if k == 'f':
+                out += self._child(s, c, k, ind)
+                continue
             if k == 'f':
                 params = [nm for nm in self.names if 'param' in self.u(c, nm)]
                 fname = 'f%d' % c
@@ -172,6 +212,8 @@ class Conc(object):
                 self.helpers.append(cname)
                 out.append(pad + 'class %s:' % cname)
                 out += self.body(c, ind + 1)
+            elif self.place:
+                out += self.guarded(pad, 'emit.ident(value=%s)' % self.expr(c))
             else:
                 out += self.guarded(pad, self.expr(c))
         if self.variant == 0 and any('load' in self.u(s, nm) for nm in self.names) and self.kids[s]:
@@ -201,10 +243,17 @@ def read_back(out_src, conc):
         if isinstance(node, ast.Call) and isinstance(node.func, ast.Name) and node.func.id == 'emit' and len(node.args) == 2 \
                 and isinstance(node.args[0], ast.Constant) and isinstance(node.args[1], ast.Name):
             found[node.args[0].value] = node.args[1].id
-        elif isinstance(node, ast.Assign) and isinstance(node.value, ast.Constant) and len(node.targets) == 1 and isinstance(node.targets[0], ast.Name):
+        elif isinstance(node, ast.Assign) and isinstance(node.value, ast.Constant) and len(node.targets) == 1 and isinstance(node.targets[0], ast.Name) \
+                and node.targets[0].id != 'tag':
             found[node.value.value] = node.targets[0].id
         elif isinstance(node, ast.AnnAssign) and isinstance(node.value, ast.Constant) and isinstance(node.target, ast.Name):
             found[node.value.value] = node.target.id
+        elif isinstance(node, ast.FunctionDef) and node.args.vararg is not None and not node.args.args and len(node.body) == 1 and isinstance(node.body[0], ast.Return) \
+                and isinstance(node.body[0].value, ast.Constant):
+            found[node.body[0].value.value] = node.name           # a store spelled as a def statement
+        elif isinstance(node, ast.ClassDef) and len(node.body) == 1 and isinstance(node.body[0], ast.Assign) and isinstance(node.body[0].value, ast.Constant) \
+                and isinstance(node.body[0].targets[0], ast.Name) and node.body[0].targets[0].id == 'tag':
+            found[node.body[0].value.value] = node.name           # a store spelled as a class statement
         elif isinstance(node, ast.For) and isinstance(node.iter, ast.List) and node.iter.elts and isinstance(node.iter.elts[0], ast.Constant) and isinstance(node.target, ast.Name):
             found[node.iter.elts[0].value] = node.target.id
         elif isinstance(node, ast.With) and len(node.items) == 1 and isinstance(node.items[0].context_expr, ast.Call) and node.items[0].context_expr.args \
@@ -312,6 +361,7 @@ def run_logged(src):
     def ctx(v):
         yield v
     emit.ctx = ctx
+    emit.ident = lambda value=None: value
     ns = {'emit': emit, '__name__': 'scopeprog'}
     import types
     fake = [n for n in ('xx', 'yy', 'A', 'B') if n not in sys.modules]
@@ -332,7 +382,7 @@ def observe(job):
     """job: {id, p, variant, opts: {rl, rg, taint, presL, presG}}.  Returns the Trace_Rename observation record (or a skip marker)."""
     import python_minifier
     o = job['opts']
-    conc = Conc(job['p'], variant=job.get('variant', 0), taint=o.get('taint', False), names=job.get('names'), imports=job.get('imports', False), heavy=job.get('heavy', ()), listcomp=job.get('listcomp', False), store=job.get('store'), witness=job.get('witness', False), wrap=job.get('wrap', False), deco=job.get('deco', ()))
+    conc = Conc(job['p'], variant=job.get('variant', 0), taint=o.get('taint', False), names=job.get('names'), imports=job.get('imports', False), heavy=job.get('heavy', ()), listcomp=job.get('listcomp', False), store=job.get('store'), witness=job.get('witness', False), wrap=job.get('wrap', False), deco=job.get('deco', ()), place=job.get('place'))
     src = conc.src
     try:
         compile(src, 'in', 'exec')
